@@ -272,7 +272,26 @@ func initStubs() {
 	stubTable = map[string]StubFn{}
 	nd := func(goTy string, mkSort func(e *Exec) Sort) StubFn {
 		return func(e *Exec, st *State, fn *Func, args []Value, site string) []Outcome {
-			return ret(st, e.nondet(nondetName(e, st, args), mkSort(e), goTy))
+			v := e.nondet(nondetName(e, st, args), mkSort(e), goTy)
+			if mathInts && v.Sort.K == SInt {
+				// mathematical integers standing in for machine words: an arbitrary value of the Go type lies in the
+				// type's range (without this an "arbitrary uint64" could be negative)
+				lo, hi := "", ""
+				switch goTy {
+				case "uint64":
+					lo, hi = "0", "18446744073709551615"
+				case "uint8":
+					lo, hi = "0", "255"
+				case "int", "int64":
+					lo, hi = "(- 9223372036854775808)", "9223372036854775807"
+				case "int32":
+					lo, hi = "(- 2147483648)", "2147483647"
+				}
+				if lo != "" {
+					st.Assume(mk("raw", BoolSort, 0, 0, "(and (<= "+lo+" "+v.ref()+") (<= "+v.ref()+" "+hi+"))", v))
+				}
+			}
+			return ret(st, v)
 		}
 	}
 	bv := func(w int) func(*Exec) Sort {
@@ -778,6 +797,7 @@ func initStubs() {
 		return ret(st)
 	}
 	initPromStubs()
+	initSyncMapStubs()
 	initStringParserStubs()
 	initCtxStubs()
 	initMathStubs()
@@ -910,6 +930,28 @@ func sliceStrings(e *Exec, st *State, v Value) []Value {
 	return append([]Value(nil), arr.F[s.Off:s.Off+s.Len]...)
 }
 
+// promChildEpoch: generation (number of Resets of its vector so far) in which a labelled child was created
+var promChildEpoch = map[int]int{}
+
+// promVecOf: object id of a vector's embedded MetricVec -> object id of the vector
+var promVecOf = map[uint64]uint64{}
+
+func promEpoch(st *State, vec uint64) int {
+	l, _ := st.Ghost["log:prom.reset"].(*Struct)
+	if l == nil {
+		return 0
+	}
+	n := 0
+	for _, r := range l.F {
+		if rs, ok := r.(*Struct); ok && len(rs.F) > 0 {
+			if t, ok := rs.F[0].(*Term); ok && t.IsConst() && (t.U == vec || promVecOf[t.U] == vec) {
+				n++
+			}
+		}
+	}
+	return n
+}
+
 func initPromStubs() {
 	newVec := func(e *Exec, st *State, fn *Func, args []Value, site string) []Outcome {
 		// opts struct: field "Name"
@@ -932,6 +974,11 @@ func initPromStubs() {
 			}
 		}
 		id := e.newObj(st, &Struct{f})
+		for i := 0; i < vs.NumFields(); i++ {
+			if vs.Field(i).Name() == "MetricVec" {
+				promVecOf[uint64(f[i].(Ptr).Obj)] = uint64(id) // Reset is promoted from the embedded *MetricVec
+			}
+		}
 		rec := append([]Value{BVConst(uint64(id), 64), name}, sliceStrings(e, st, args[1])...)
 		e.ghostLog(st, "prom.newvec", &Struct{rec})
 		return ret(st, Ptr{Obj: id})
@@ -953,12 +1000,21 @@ func initPromStubs() {
 		if pp == nil || pp.Type("summary") == nil {
 			fail("prometheus package not loaded")
 		}
-		id := e.newObj(st, &Struct{append([]Value{BVConst(uint64(args[0].(Ptr).Obj), 64)}, sliceStrings(e, st, args[1])...)})
+		vec := uint64(args[0].(Ptr).Obj)
+		// a child belongs to the generation of its vector it was created in: Reset deletes the vector's children, so a
+		// child obtained before a Reset is an orphan afterwards (it still accepts observations, nothing exports them)
+		id := e.newObj(st, &Struct{append([]Value{BVConst(vec, 64)}, sliceStrings(e, st, args[1])...)})
+		promChildEpoch[id] = promEpoch(st, vec)
 		return ret(st, Iface{T: types.NewPointer(pp.Type("summary").Type()), V: Ptr{Obj: id}})
 	}
 	stubTable["(*"+promPkg+".summary).Observe"] = func(e *Exec, st *State, fn *Func, args []Value, site string) []Outcome {
-		rec := e.objContent(st, args[0].(Ptr).Obj).(*Struct)
-		e.ghostLog(st, "prom.observe", &Struct{append(append([]Value(nil), rec.F...), args[1])})
+		child := args[0].(Ptr).Obj
+		rec := e.objContent(st, child).(*Struct)
+		log := "prom.observe"
+		if ep, ok := promChildEpoch[child]; ok && ep != promEpoch(st, rec.F[0].(*Term).U) {
+			log = "prom.orphan"
+		}
+		e.ghostLog(st, log, &Struct{append(append([]Value(nil), rec.F...), args[1])})
 		return ret(st)
 	}
 	stubTable["sort.Strings"] = func(e *Exec, st *State, fn *Func, args []Value, site string) []Outcome {
